@@ -726,6 +726,11 @@ def fam_crash_core(tier="quick"):
         L.append(prog_line(f"crU{n}", ["U", "A0"], [["sp 1", "ld 1 sc", f"cn 0 {k}", "jn 1"], ["st 1 1 sc"]])); n += 1
         L.append(prog_line(f"crU{n}", ["U", "A0"], [["sp 1", "st 1 1 sc", "jn 1"], ["ld 1 sc", f"cn 0 {k}"]])); n += 1
         L.append(prog_line(f"crOK{n}", ["U", "A0"], [["cw 0", "cn 0 3", "cr 0"]])); n += 1
+    # correct programs whose thread-local destructors use loom while their thread is being torn down (the
+    # destructor of key 2 looks at key 0 of the same thread): the model must return normally
+    for main, th in ((["sp 1", "tw 0", "tw 2", "jn 1"], ["tw 0", "tw 2"]), (["sp 1", "jn 1"], ["tw 2", "tw 0"]),
+                     (["tw 2", "tw 0", "sp 1", "st 0 1 sc"], ["tw 0", "tw 2", "ld 0 sc"])):
+        L.append(prog_line(f"crOK{n}", ["A0"], [main, th])); n += 1
     return L
 
 
@@ -848,6 +853,22 @@ def fam_litmus_core(tier="quick"):
     for f in ("ar", "sc", "acq", "rel"):
         L.append(litmus_line(f"ltISA2R{f}", isa, ["rlx", "rel", "rlx", "rlx", "acq", "rlx"], [None, f, None]))
     L.append(litmus_line("ltISA2Rff", isa, ["rlx", "rlx", "rlx", "rlx", "rlx", "rlx"], ["rel", "ar", "acq"]))
+    # a compare-exchange whose failure ordering is weaker than its success ordering: a FAILED exchange is a
+    # load with the failure ordering (message passing through a flag that the exchange fails on)
+    n = 0
+    for so, fo in (("acq", "rlx"), ("ar", "rlx"), ("sc", "rlx"), ("sc", "acq"), ("ar", "acq"), ("rel", "rlx"), ("rlx", "rlx"), ("acq", "acq")):
+        for ex in (0, 7):
+            L.append(prog_line(f"ltMPcf{n}", ["A0", "A0"], [["sp 1", "sp 2", "jn 1", "jn 2"], ["st 0 1 rlx", "st 1 1 rel"], [f"cas 1 {ex} 5 {so} {fo}", "ld 0 rlx"]]))
+            n += 1
+        L.append(prog_line(f"ltMPcf{n}", ["A0", "A0"], [["sp 1", "sp 2", "jn 1", "jn 2"], ["st 0 1 rlx", "rmw 1 add 1 rel"], [f"cas 1 0 5 {so} {fo}", "ld 0 rlx"]]))
+        n += 1
+    # read-write coherence through ANOTHER thread's read: C reads A's store and releases, B acquires and
+    # stores: A's store is mo-before B's, so B (and everybody who knows B's store) no longer reads A's
+    corw = [[("W", 0, 1)], [("R", 0), ("W", 1, 1)], [("R", 1), ("W", 0, 2), ("R", 0)]]
+    L.append(litmus_line("ltCoRWx0", corw, ["rlx", "rlx", "rel", "acq", "rlx", "rlx"], [None] * 3))
+    L.append(litmus_line("ltCoRWx1", corw, ["rlx", "acq", "rel", "acq", "rel", "acq"], [None] * 3))
+    L.append(litmus_line("ltCoRWx2", corw, ["rlx", "rlx", "rlx", "rlx", "rlx", "rlx"], [None, "rel", "acq"]))
+    L.append(litmus_line("ltCoRWx3", [[("W", 0, 1)], [("U", 0, 0), ("W", 1, 1)], [("R", 1), ("W", 0, 2), ("U", 0, 0)]], ["rlx", "rlx", "rel", "acq", "rlx", "rlx"], [None] * 3))
     return L
 
 
@@ -920,6 +941,9 @@ def fam_race_core(tier="quick"):
     add("AfU", ["A0", "A0"], [["st 1 1 rel", "usl 0"], ["aw 1 1 acq", "wm 0 9"]])
     # the same with the access BEFORE the release: ordered
     add("BfR", ["U", "A0"], [["cr 0", "st 1 1 rel"], ["aw 1 1 acq", "cw 0"]])
+    # a FAILED compare-exchange acquires with its failure ordering only
+    for so, fo in (("acq", "rlx"), ("sc", "rlx"), ("sc", "acq"), ("rlx", "rlx")):
+        add("MPcf", ["U", "A0"], [["cw 0", "st 1 1 rel"], [f"cas 1 7 5 {so} {fo}", "cr 0"]])
     # Arc::get_mut returning the unique handle acquires the drops of the other handles: the former owner's
     # accesses happen-before the exclusive access (the flag is relaxed: it orders nothing by itself)
     L.append(prog_line(f"rcGm{n[0]}", ["K", "U", "A0"], [["ac 0 0 2", "sp 1", "aw 2 1 rlx", "ag 0 0", "cw 1", "jn 1", "ad 0 0"], ["cw 1", "ad 0 2", "st 2 1 rlx"]])); n[0] += 1
